@@ -7,12 +7,13 @@ import tx
 from impl import trees, transform, quiet, clone, tag_uids, mk_leaf, mk_node
 
 ID = "C11"
-MODULE = ['TT.Props.C11', 'TT.Props.C11More', 'TT.Props.Pinned']
+MODULE = ['TT.Props.C11', 'TT.Props.C11More', 'TT.Props.C11Slash', 'TT.Props.Pinned']
 RULE = ("random well-formed trees with punctuation / trace tokens at any depth and position (first, last, only child "
         "of a unary chain, sole content of a constituent); terminal files with valid, out-of-range, 0 and other-sentence "
-        "entries; parameters quiet, keep, keepall, keepcoindex, filteroperator/filtervalue. Non-trivial: the output "
+        "entries; parameters quiet, keep, keepall, keepcoindex, slash (flag and label list; co-indexed fillers that dominate "
+        "or c-command their trace, several constituents with one index, traces without filler), filteroperator/filtervalue. Non-trivial: the output "
         "differs from the input")
-TRUSTED = ["the slash annotation of ptb_delete_traces is not modelled (exercised on the implementation only)"]
+TRUSTED = []
 ASSUMPTIONS = ["labels follow the documented label grammar (gap index before co-index)"]
 
 TRACE_WORDS = ["*T*-1", "*-2", "*U*", "0", "*EXP*-3", "*T*-12", "*?*", "*ICH*-2", "*T*=1-2", "*"]
@@ -195,34 +196,149 @@ def traces(rng):
                 nontrivial=res != proto.enc_tree(t, canon=True), tags=["all-traces"] if alltr else [])
 
 
-def traces_slash(rng):
-    """the slash annotation is not modelled: only the token clauses of the property are evaluated on the
-    implementation's output (which tokens remain, numbering, pruning)"""
-    cfg = treegen.Cfg(n_min=3, n_max=9, p_unary=0.2, p_punct=0.0, labels=["NP-SBJ-1", "WHNP-1", "S", "VP", "SBAR", "NP-2", "NP"],
-                      p_disc=0.0, none_fields=False)
+SLASH_CATS = ["S", "VP", "SBAR", "NP", "NP-SBJ", "WHNP", "PP-LOC", "ADJP", "WHADVP", "SQ", "NP'", "S", "NP", "VP"]
+SLASH_TRACE_FORMS = ["*T*", "*T*", "*T*", "*", "*", "*ICH*", "*EXP*", "*U*", "0", "*?*"]
+SLASH_VALUES = ["*T*", "*", "*T*,*ICH*", "*U*", "*T*,*,*EXP*", "*ICH*"]
+SLASH_KEEPS = ["*T*", "*T*,*", "*,*ICH*,*EXP*", "*U*,0", "*T*-1,*-2,*T*-2", "*T*,*,*ICH*,*EXP*,*U*,0,*?*"]
+
+
+def _constituents(node, acc):
+    """constituents below (and including) node, storage preorder"""
+    if node.children:
+        acc.append(node)
+        for c in node.children:
+            _constituents(c, acc)
+    return acc
+
+
+def _with_index(rng, label, k):
+    """LABEL(=GAP)?-K('), the documented order of the pieces"""
+    hm = ""
+    if label.endswith("'"):
+        label, hm = label[:-1], "'"
+    gap = "=%d" % rng.randint(1, 3) if rng.random() < 0.1 else ""
+    return "%s%s-%d%s" % (label, gap, k, hm)
+
+
+def _has_index(node):
+    return len(trees.parse_label(node.data['label']).coindex) > 0
+
+
+def slash_tree(rng):
+    """a PTB-like tree for the slash annotation: trace tokens (with and without co-index, several with the same one),
+    co-indexed constituents placed so that every branch of the annotation code is reached: one filler per index
+    (dominating the trace, or elsewhere in the tree), several constituents with the same index (bottom-up resolution:
+    an ancestor of the trace, or a child of one), indices without any filler (the trace is deleted), traces as the only
+    content of a constituent or of a unary chain (pruning)"""
+    cfg = treegen.Cfg(n_min=2, n_max=10, p_unary=0.3, p_punct=0.0, labels=SLASH_CATS, p_disc=rng.choice([0.0, 0.0, 0.3]),
+                      none_fields=False)
     t = treegen.gen_tree(rng, cfg)
+    if rng.random() < 0.3:
+        t.data['label'] = rng.choice(["S", "TOP", "SQ"])
     terms = trees.terminals(t)
-    for term in terms[1:]:
-        if rng.random() < 0.3:
+    all_traces = rng.random() < 0.04
+    p_trace = rng.choice([0.2, 0.35, 0.5])
+    nidx = rng.choice([1, 2, 2, 3])
+    traces = []
+    for i, term in enumerate(terms):
+        if all_traces or (rng.random() < p_trace and (i > 0 or rng.random() < 0.5)):
+            w = rng.choice(SLASH_TRACE_FORMS)
+            r = rng.random()
+            if r < (0.8 if w.startswith("*") and w not in ("*U*", "*?*") else 0.1):
+                if rng.random() < 0.07:
+                    w += "=%d" % rng.randint(1, 3)
+                w += "-%d" % rng.randint(1, nidx)
             term.data['label'] = "-NONE-"
-            term.data['word'] = rng.choice(["*T*-1", "*-2", "*U*", "0", "*T*-7"])
+            term.data['word'] = w
+            traces.append(term)
+    if not all_traces and len(traces) == len(terms):
+        # keep one ordinary token
+        keep = rng.choice(terms)
+        keep.data['label'] = "NN"
+        keep.data['word'] = "w"
+        traces = [x for x in traces if x is not keep]
+    cons = _constituents(t, [])
+    inner = cons[1:] if len(cons) > 1 else cons
+    mode = rng.choice(["random", "unique", "unique", "resolvable", "resolvable"])
+    if mode == "random":
+        for c in (cons if rng.random() < 0.3 else inner):
+            if rng.random() < 0.35:
+                c.data['label'] = _with_index(rng, c.data['label'], rng.randint(1, nidx))
+    elif mode == "unique":
+        pool = list(cons if rng.random() < 0.3 else inner)
+        rng.shuffle(pool)
+        for k in range(1, nidx + 1):
+            if pool and rng.random() < 0.8:
+                c = pool.pop()
+                c.data['label'] = _with_index(rng, c.data['label'], k)
+    else:
+        for tr in traces:
+            co = trees.parse_label(tr.data['word']).coindex
+            if not co or rng.random() < 0.15:
+                continue
+            anc = []
+            cur = tr.parent
+            while cur is not None:
+                anc.append(cur)
+                cur = cur.parent
+            for _ in range(4):
+                a = rng.choice(anc)
+                if rng.random() < 0.5:
+                    cand = a                                     # a filler that dominates the trace
+                else:
+                    sibs = [c for c in a.children if c.children and c not in anc]
+                    if not sibs:
+                        continue
+                    cand = rng.choice(sibs)                      # a filler that is a child of an ancestor
+                if not _has_index(cand):
+                    cand.data['label'] = _with_index(rng, cand.data['label'], int(co))
+                    break
+        if rng.random() < 0.5:
+            free = [c for c in inner if not _has_index(c)]
+            if free:
+                c = rng.choice(free)
+                c.data['label'] = _with_index(rng, c.data['label'], rng.randint(1, nidx))
+    if rng.random() < 0.1:
+        # gap indices alone
+        c = rng.choice(cons)
+        if not _has_index(c) and not c.data['label'].endswith("'"):
+            c.data['label'] += "=%d" % rng.randint(1, 3)
+    return t, mode
+
+
+def traces_slash(rng):
+    """ptb_delete_traces with the slash parameter: model and implementation on the same input; the token clauses of the
+    property are evaluated on the implementation's output (which tokens remain, numbering, pruning)"""
+    t, mode = slash_tree(rng)
     t.data['sid'] = 1
     tag_uids(t)
     a = proto.enc_tree(t)
-    params = {"slash": True if rng.random() < 0.5 else "*T*"}
-    if rng.random() < 0.5:
+    params = {"slash": True if rng.random() < 0.5 else rng.choice(SLASH_VALUES)}
+    r = rng.random()
+    if r < 0.55:
         params['keepall'] = True
+    elif r < 0.88:
+        params['keep'] = rng.choice(SLASH_KEEPS)
+    if rng.random() < 0.3:
+        params['keepcoindex'] = True
     res, _, ret = tx.run_impl([("ptb_delete_traces", params)], tx.fresh(t, 1))
-    lines = []
+    cs = tx.call_str("ptb_delete_traces", params)
+    lines = [Line("corr", "apply", [cs, a], res)]
     if ret is not None:
+        # the property's clauses on the implementation's output, evaluated by the driver (Driver/OpsEdit.lean, slash branch)
+        lines.append(Line("pred", "P.C11", [cs, a, res]))
         # expected tokens: as without slash, except that traces without a filler are deleted too
         nparams = {k: v for k, v in params.items() if k != "slash"}
         res2, _, ret2 = tx.run_impl([("ptb_delete_traces", nparams)], tx.fresh(t, 1))
         try:
-            kept = set(x.data.get('uid') for x in trees.terminals(ret))
-            kept2 = set(x.data.get('uid') for x in trees.terminals(ret2)) if ret2 is not None else set()
-            ok = kept <= kept2 and [x.data['num'] for x in trees.terminals(ret)] == list(range(1, len(kept) + 1)) and \
+            kept = set(x.data.get('uid') for x in trees.terminals(ret)) if ret.children else set()
+            kept2 = set(x.data.get('uid') for x in trees.terminals(ret2)) if ret2 is not None and ret2.children else set()
+            ok = kept <= kept2 and (not ret.children or [x.data['num'] for x in trees.terminals(ret)] == list(range(1, len(kept) + 1))) and \
                 all((n.children or 'num' in n.data) for n in trees.preorder(ret) if n is not ret)
+            if ret2 is not None and ret2.children:
+                # nothing but kept traces is deleted on top of the plain trace deletion
+                gone = [x for x in trees.terminals(ret2) if x.data.get('uid') not in kept]
+                ok = ok and all(x.data['word'] == "-NONE-" for x in gone)
         except ValueError:
             kept, kept2, ok = set(), set(), False          # not a well-formed tree (e.g. a childless constituent left behind)
         l = Line("pred", "P.C18.eq", ["a", "a" if ok else "b"], note="slash: tokens %s vs without slash %s" % (sorted(kept), sorted(kept2)))
@@ -232,7 +348,7 @@ def traces_slash(rng):
         lines.append(l)
     else:
         lines.append(Line("pred", "P.C18.eq", ["a", "a"], note="slash: rejected (no unique filler)"))
-    return Case("ptb_delete_traces:slash", {"tree": proto.pretty_tree(t), "params": params, "result": res[:50]}, lines,
+    return Case("ptb_delete_traces:slash", {"tree": proto.pretty_tree(t), "params": params, "result": res[:50], "fillers": mode}, lines,
                 nontrivial=True)
 
 
